@@ -104,6 +104,10 @@ func urlText(r *rng, noColon bool) string {
 	for i := 0; i < n; i++ {
 		switch r.intn(3) {
 		case 0:
+			if r.intn(5) == 0 {
+				b.WriteString(dictStrs[r.intn(len(dictStrs))]) // a text the code itself mentions
+				continue
+			}
 			b.WriteString(pick(r, []string{"Example", "alice", "user@example.com", "My Co", "ACME", "corp", "x"}))
 		default:
 			b.WriteString(pick(r, urlChars))
